@@ -9,7 +9,9 @@ CLAIM = (
     "a zero return by no stderr write and a closing stdout write, delegations forward untouched streams; "
     "(2) package-wide, no error value is silently dropped: every (value, error) pair has its error read on all paths "
     "before it is overwritten or the function returns, no error-returning call is an expression statement, and no "
-    "non-empty local error accumulator reaches a normal exit without being handed on."
+    "non-empty local error accumulator reaches a normal exit without being handed on; (3) REG: every check of the IR verification battery "
+    "is called from _verify on its own prerequisite only - never under `the accumulator is still empty` - so that independent errors are "
+    "all reported; (4) EXIT-PROP: the exit status reaches the process."
 )
 NOTE = (
     "Trusted base: the annotation-driven resolver (error shapes are recognised from return annotations), the XOR "
@@ -31,6 +33,9 @@ def run(ctx) -> None:
     ctx.rule("HANDLER", "every file-system write in an execute() sits in a try whose handler covers I/O and encoding errors (OSError and ValueError), reports to stderr and returns non-zero", floor=14)
     ctx.rule("EXIT-PROP", "the exit status computed by execute() reaches the process: main()/entry_point() return it and every `if __name__ == '__main__'` block hands it to sys.exit", floor=5)
     _check_exit_propagation(ctx)
+    ctx.rule("REG", "every verification of the IR stage is called from _verify independently of unrelated earlier errors and its result is returned (shared with C06)", floor=12)
+    from . import c06 as _c06
+    _c06.check_reg(ctx)
     for f in execute_functions(ctx.p):
         exitcode.check_exit_contract(ctx, f, "ERR4")
         _check_write_handlers(ctx, f)
